@@ -278,4 +278,49 @@ theorem packet_roundtrip (crc : Bytes → BitVec 32) (p : Packet) (hwf : wfPacke
       rw [← putChecksum_hdr, field_putChecksum _ _ hlen, cksum_putChecksum _ _ _ hlen]
     rw [if_pos hacc, decAfter_hdr p _ body (by simp) p.chunks hd]
 
+/-! ### emission -/
+
+theorem le32_zero : le32 0#32 = zeros 4 := by decide
+
+/-- what `packet.marshal(doChecksum)` writes into the checksum field -/
+theorem encWith_field (crc : Bytes → BitVec 32) (dc : Bool) (p : Packet) (raw : Bytes)
+    (h : encWith crc dc p = .ok raw) :
+    12 ≤ raw.length ∧ field raw = if dc then cksum crc raw else 0#32 := by
+  unfold encWith at h
+  have e : be16 p.sport ++ be16 p.dport ++ be32 p.vtag ++ zeros 4 = hdr8 p ++ zeros 4 := rfl
+  rw [e] at h
+  cases he : encChunks (hdr8 p ++ zeros 4) p.chunks with
+  | ok raw0 =>
+    obtain ⟨body, hb⟩ := encChunks_prefix _ _ _ he
+    subst hb
+    have hlen : 12 ≤ (hdr8 p ++ zeros 4 ++ body).length := by simp [hdr8_length]; omega
+    rw [he] at h
+    simp only [ok_bind] at h
+    cases dc
+    · simp only [Bool.false_eq_true, ↓reduceIte, Res.ok.injEq] at h
+      subst h
+      refine ⟨hlen, ?_⟩
+      rw [← le32_zero]
+      exact field_append _ _ _ (hdr8_length p)
+    · simp only [↓reduceIte, packetChecksum_eq crc _ hlen, ok_bind, Res.ok.injEq] at h
+      subst h
+      refine ⟨by rw [putChecksum_hdr]; simp [hdr8_length]; omega, ?_⟩
+      rw [field_putChecksum _ _ hlen, cksum_putChecksum _ _ _ hlen]
+      rfl
+  | err e => rw [he] at h; cases h
+  | panic => rw [he] at h; cases h
+  | loop => rw [he] at h; cases h
+
+/-- a packet that starts with INIT / COOKIE-ECHO but is too short to hold a chunk header is rejected
+after the checksum stage -/
+theorem decAfter_short (raw : Bytes) (h1 : 12 < raw.length) (h2 : raw.length < 16) :
+    decAfter raw = .err .ErrParseSCTPChunkNotEnoughData := by
+  unfold decAfter
+  rw [chunksLoop.eq_def]
+  simp only
+  rw [if_pos h1, sliceFrom_of_le (by omega)]
+  simp only [ok_bind]
+  rw [if_pos (by simp only [List.length_drop, c_chunkHeaderSize]; omega)]
+  rfl
+
 end Codec
